@@ -283,11 +283,27 @@ class V:
     def __rsub__(self, o):
         return self._bin(o, lambda x, y: num(x) - num(y), "-", reverse=True)
 
+    def _mul(self, o, reverse=False):
+        r = self._bin(o, lambda x, y: num(x) * num(y), "*", reverse=reverse)
+        if r is NotImplemented:
+            return r
+        ov = o if isinstance(o, V) else None
+        # IEEE: infinity * 0 is NaN (not infinity) -- an entry flagged infinite on one side and exactly 0 on the other
+        extra = None
+        if self.inf is not None:
+            ot = ov.t if ov is not None else to_term(o)
+            extra = _or(extra, z3.And(self.inf, num(ot) == 0))
+        if ov is not None and ov.inf is not None:
+            extra = _or(extra, z3.And(ov.inf, num(self.t) == 0))
+        if extra is not None:
+            r = V(r.t, r.axes, r.series, _or(r.nan, extra), r.inf, r.meta)
+        return r
+
     def __mul__(self, o):
-        return self._bin(o, lambda x, y: num(x) * num(y), "*")
+        return self._mul(o)
 
     def __rmul__(self, o):
-        return self._bin(o, lambda x, y: num(x) * num(y), "*", reverse=True)
+        return self._mul(o, reverse=True)
 
     def _div(self, o, reverse=False):
         other = o if isinstance(o, V) else V(to_term(o))
